@@ -142,6 +142,7 @@ pub async fn restore(
                 monitor.error(Error::InvalidMetadata {
                     details: format!("Unknown file kind {:?}", entry.apath()),
                 });
+                continue;
             }
         };
         if let Some(cb) = options.change_callback.as_ref() {
